@@ -173,6 +173,8 @@ namespace
         if (shape == "tsdb") return run_shape<ShapeDictB>(script);
         if (shape == "tsl") return run_shape<ShapeTSL>(script);
         if (shape == "tsls") return run_shape<ShapeListS>(script);
+        if (shape == "tslb") return run_shape<ShapeListB>(script);
+        if (shape == "tsll") return run_shape<ShapeListL>(script);
         if (shape == "tsb") return run_shape<ShapeTSB>(script);
         if (shape == "tsbd") return run_shape<ShapeBundleD>(script);
         if (shape == "tsw") return run_shape<ShapeTSW>(script);
@@ -210,6 +212,8 @@ void verif_enumerate(verif::Ctx &ctx)
         {"tsdb", {"1a=5", "1b=6", "2a=5", "1a=7", "e1", "e2"}, 2, th ? 4 : 3},
         {"tsl", {"0=1", "0=2", "1=1"}, 2, th ? 5 : 4},
         {"tsls", {"0+1", "0-1", "1+1", "1+2", "1-1"}, 2, th ? 4 : 3},
+        {"tslb", {"0a=1", "0b=2", "1a=3", "0a=4", "1b=5"}, 2, th ? 4 : 3},   // list elements that are bundles, completed one member at a time
+        {"tsll", {"00=1", "01=2", "10=3", "00=4"}, 2, th ? 4 : 3},
         {"tsb", {"a=1", "a=2", "b=1", "W1:1", "W2:1"}, 2, th ? 4 : 3},
         {"tsbd", {"x=1", "x=2", "s1=5", "s2=6", "e1"}, 2, th ? 4 : 3},
         {"tsw", {"p1", "p2", "p3"}, 1, th ? 8 : 6},
